@@ -1459,8 +1459,12 @@ func (c *Conn) readStream(fr *FrameHeader, res *fasthttp.Response) (err error) {
 		data := fr.Body().(*Data)
 		if data.Len() != 0 {
 			res.AppendBody(data.Data())
+		}
 
-			// let's send the window update
+		// The whole payload counts against the stream's window, padding
+		// included, so that is what goes back: a frame that is all padding
+		// would otherwise never be credited.
+		if fr.Len() > 0 {
 			c.updateWindow(fr.Stream(), fr.Len())
 		}
 
